@@ -6,123 +6,9 @@ import OfxProofs.Lemmas.Header
 namespace Ofx.Header
 open Ofx Ofx.Codec Ofx.Spec.HeaderLayout
 
-/-! ### `rawheader = line + "\n" + …`: inserting a line feed after the first line -/
-
-def ins : Str → Str
-  | [] => ['\n']
-  | c :: cs => if c = '\n' then '\n' :: '\n' :: cs else c :: ins cs
+/-! ### line feeds -/
 
 def hasLF (s : Str) : Bool := s.any (· == '\n')
-
-def insD (d : Bool) (s : Str) : Str := if d then s else ins s
-
-def insW (d : Bool) (w : Str) : Str × Bool :=
-  if d then (w, true) else if hasLF w then (ins w, true) else (w, false)
-
-theorem ins_append_noLF (X Y : Str) (h : hasLF X = false) : ins (X ++ Y) = X ++ ins Y := by
-  induction X with
-  | nil => rfl
-  | cons c cs ih =>
-    simp only [hasLF, List.any_cons, Bool.or_eq_false_iff, beq_eq_false_iff_ne] at h
-    simp only [List.cons_append, ins, if_neg h.1]
-    rw [ih (by simpa [hasLF] using h.2)]
-
-theorem ins_append_LF (X Y : Str) (h : hasLF X = true) : ins (X ++ Y) = ins X ++ Y := by
-  induction X with
-  | nil => simp [hasLF] at h
-  | cons c cs ih =>
-    simp only [List.cons_append, ins]
-    by_cases hc : c = '\n'
-    · simp [hc]
-    · simp only [if_neg hc, List.cons_append]
-      rw [ih (by simpa [hasLF, hc] using h)]
-
-theorem insD_tx (d : Bool) (X Y : Str) (h : hasLF X = false) : insD d (X ++ Y) = X ++ insD d Y := by
-  cases d
-  · simp [insD, ins_append_noLF X Y h]
-  · simp [insD]
-
-theorem insD_ws (d : Bool) (w Y : Str) : insD d (w ++ Y) = (insW d w).1 ++ insD (insW d w).2 Y := by
-  cases d
-  · cases h : hasLF w
-    · simp [insD, insW, h, ins_append_noLF w Y h]
-    · simp [insD, insW, h, ins_append_LF w Y h]
-  · simp [insD, insW]
-
-theorem ins_length (s : Str) : (ins s).length = s.length + 1 := by
-  induction s with
-  | nil => rfl
-  | cons c cs ih => by_cases hc : c = '\n' <;> simp [ins, hc, ih]
-
-theorem mem_ins (s : Str) (c : Char) (h : c ∈ ins s) : c = '\n' ∨ c ∈ s := by
-  induction s with
-  | nil => simp [ins] at h; exact Or.inl h
-  | cons d ds ih =>
-    by_cases hd : d = '\n'
-    · simp only [ins, hd, if_true, List.mem_cons] at h ⊢
-      rcases h with h | h | h
-      · exact Or.inl h
-      · exact Or.inl h
-      · exact Or.inr (Or.inr h)
-    · simp only [ins, if_neg hd, List.mem_cons] at h ⊢
-      rcases h with h | h
-      · exact Or.inr (Or.inl h)
-      · rcases ih h with h | h
-        · exact Or.inl h
-        · exact Or.inr (Or.inr h)
-
-theorem allSpace_ins (w : Str) (h : allSpace w) : allSpace (ins w) := by
-  intro c hc
-  rcases mem_ins w c hc with h1 | h1
-  · subst h1; decide
-  · exact h c h1
-
-theorem allSpace_insW (d : Bool) (w : Str) (h : allSpace w) : allSpace (insW d w).1 := by
-  unfold insW
-  split
-  · exact h
-  · split
-    · exact allSpace_ins w h
-    · exact h
-
-theorem insD_fld (d : Bool) (nm : String) (b v w T : Str) (hn : hasLF nm.toList = false) (hb : hasLF b = false)
-    (hv : hasLF v = false) :
-    insD d (fld nm b v w T) = fld nm b v (insW d w).1 (insD (insW d w).2 T) := by
-  unfold fld
-  have e : nm.toList ++ ':' :: (b ++ (v ++ (w ++ T))) = (nm.toList ++ [':']) ++ (b ++ (v ++ (w ++ T))) := by simp
-  rw [e, insD_tx _ _ _ (by simpa [hasLF] using hn), insD_tx _ _ _ hb, insD_tx _ _ _ hv, insD_ws]
-  simp
-
-theorem head_ins (s : Str) (p : Char → Bool) (hnl : p '\n' = false) (h : ∀ c ∈ s.head?, p c = false) :
-    ∀ c ∈ (ins s).head?, p c = false := by
-  cases s with
-  | nil => intro c hc; simp [ins] at hc; subst hc; exact hnl
-  | cons d ds =>
-    intro c hc
-    by_cases hd : d = '\n'
-    · simp [ins, hd] at hc; subst hc; exact hnl
-    · simp [ins, hd] at hc; subst hc; exact h _ (by simp)
-
-/-! ### the v1 text after the insertion -/
-
-def V1W.compIns (t : V1W) (d : Bool) : Option (Str × Str × Str) × Bool :=
-  match t.comp with
-  | some (b, v, w) => (some (b, v, (insW d w).1), (insW d w).2)
-  | none => (none, d)
-
-/-- thread the insertion through the whitespace slots, left to right -/
-def V1W.ins (t : V1W) : V1W × Bool :=
-  let i := insW false t.indent
-  let w1 := insW i.2 t.w1
-  let w2 := insW w1.2 t.w2
-  let w3 := insW w2.2 t.w3
-  let w4 := insW w3.2 t.w4
-  let w5 := insW w4.2 t.w5
-  let w6 := insW w5.2 t.w6
-  let c := t.compIns w6.2
-  let w8 := insW c.2 t.w8
-  ({ t with indent := i.1, w1 := w1.1, w2 := w2.1, w3 := w3.1, w4 := w4.1, w5 := w5.1, w6 := w6.1, comp := c.1,
-            w8 := w8.1 }, w8.2)
 
 theorem hasLF_of_class (p : Char → Bool) (hp : ∀ c, p c = true → isSpace c = false) (v : Str)
     (hv : ∀ c ∈ v, p c = true) : hasLF v = false := by
@@ -149,95 +35,20 @@ structure V1W.NoLF (t : V1W) : Prop where
   b8 : hasLF t.b8 = false
   b9 : hasLF t.b9 = false
 
-theorem V1W.ins_text (t : V1W) (R : Str) (ok : t.Ok) (nl : t.NoLF) :
-    Header.ins (t.text R) = t.ins.1.text (insD t.ins.2 R) := by
-  have h1 := hasLF_of_class _ digit_not_space _ ok.v1.2
-  have h2 := hasLF_of_class _ upper_not_space _ ok.v2.2
-  have h3 := hasLF_of_class _ digit_not_space _ ok.v3.2
-  have h4 := hasLF_of_class _ word_not_space _ ok.v4.2
-  have h5 := hasLF_of_class _ upDigDash_not_space _ ok.v5.2
-  have h6 := hasLF_of_class _ wordDash_not_space _ ok.v6.2
-  have h8 := hasLF_of_class _ wordDash_not_space _ ok.v8.2
-  have h9 := hasLF_of_class _ wordDash_not_space _ ok.v9.2
-  have e0 : Header.ins (t.text R) = insD false (t.text R) := rfl
-  rw [e0, V1W.text, insD_ws,
-    insD_fld _ _ _ _ _ _ (by decide) nl.b1 h1, insD_fld _ _ _ _ _ _ (by decide) nl.b2 h2,
-    insD_fld _ _ _ _ _ _ (by decide) nl.b3 h3, insD_fld _ _ _ _ _ _ (by decide) nl.b4 h4,
-    insD_fld _ _ _ _ _ _ (by decide) nl.b5 h5, insD_fld _ _ _ _ _ _ (by decide) nl.b6 h6]
-  have tail : ∀ d, insD d (fld "OLDFILEUID" t.b8 t.v8 t.w8 ("NEWFILEUID".toList ++ ':' :: (t.b9 ++ (t.v9 ++ R)))) =
-      fld "OLDFILEUID" t.b8 t.v8 (insW d t.w8).1
-        ("NEWFILEUID".toList ++ ':' :: (t.b9 ++ (t.v9 ++ insD (insW d t.w8).2 R))) := by
-    intro d
-    rw [insD_fld _ _ _ _ _ _ (by decide) nl.b8 h8]
-    have e : "NEWFILEUID".toList ++ ':' :: (t.b9 ++ (t.v9 ++ R)) =
-        ("NEWFILEUID".toList ++ [':']) ++ (t.b9 ++ (t.v9 ++ R)) := by simp
-    rw [e, insD_tx _ _ _ (by decide), insD_tx _ _ _ nl.b9, insD_tx _ _ _ h9]
-    simp
-  cases hc : t.comp with
-  | none =>
-    simp only [V1W.compText, hc, tail, V1W.ins, V1W.compIns, V1W.text]
-  | some x =>
-    obtain ⟨b, v, w⟩ := x
-    have hv := hasLF_of_class _ upper_not_space _ (ok.comp b v w hc).2.1.2
-    simp only [V1W.compText, hc, insD_fld _ _ _ _ _ _ (by decide : hasLF "COMPRESSION".toList = false) (nl.bc b v w hc) hv,
-      tail, V1W.ins, V1W.compIns, V1W.text]
-
-theorem V1W.ins_ok (t : V1W) (ok : t.Ok) : t.ins.1.Ok := by
-  refine { ok with indent := ?_, w1 := ?_, w2 := ?_, w3 := ?_, w4 := ?_, w5 := ?_, w6 := ?_, w8 := ?_, comp := ?_ }
-  · exact allSpace_insW _ _ ok.indent
-  · exact allSpace_insW _ _ ok.w1
-  · exact allSpace_insW _ _ ok.w2
-  · exact allSpace_insW _ _ ok.w3
-  · exact allSpace_insW _ _ ok.w4
-  · exact allSpace_insW _ _ ok.w5
-  · exact allSpace_insW _ _ ok.w6
-  · exact allSpace_insW _ _ ok.w8
-  · intro b v w h
-    simp only [V1W.ins, V1W.compIns] at h
-    cases hc : t.comp with
-    | none => simp [hc] at h
-    | some x =>
-      obtain ⟨b0, v0, w0⟩ := x
-      simp [hc] at h
-      obtain ⟨hb, hv, hw⟩ := ok.comp b0 v0 w0 hc
-      rw [← h.1, ← h.2.1, ← h.2.2]
-      exact ⟨hb, hv, allSpace_insW _ _ hw⟩
-
-theorem V1W.ins_caps (t : V1W) : t.ins.1.caps = t.caps := by
-  simp only [V1W.ins, V1W.caps, V1W.compIns]
-  cases t.comp with
-  | none => rfl
-  | some x => rfl
-
 /-! ### reading lines -/
 
-def chars (bs : Bytes) : Str := bs.map byteChar
-
-def asciiB (bs : Bytes) : Prop := ∀ b ∈ bs, b.toNat < 128
-
-theorem decodeAscii_of_ascii (bs : Bytes) (h : asciiB bs) : decodeAscii bs = .ok (chars bs) := by
-  induction bs with
-  | nil => rfl
-  | cons b bs ih =>
-    rw [decodeAscii, if_pos (h b (by simp)), ih (fun x hx => h x (by simp [hx]))]
-    rfl
+/-- `bytes.decode("ascii", errors="replace")` -/
+def chars (bs : Bytes) : Str := decodeAsciiReplace bs
 
 theorem chars_asciiBytes (s : Str) (hs : isAscii s) : chars (asciiBytes s) = s := by
   induction s with
   | nil => rfl
   | cons c cs ih =>
     have hc := (isAscii_cons.1 hs).1
-    simp only [chars, asciiBytes, List.map_cons] at ih ⊢
-    rw [ih (isAscii_cons.1 hs).2, byteChar_byteOf c (by omega)]
+    simp only [chars, decodeAsciiReplace, asciiBytes, List.map_cons] at ih ⊢
+    rw [ih (isAscii_cons.1 hs).2, byteOf_toNat _ (by omega), if_pos hc, byteChar_byteOf c (by omega)]
 
-theorem asciiB_asciiBytes (s : Str) (hs : isAscii s) : asciiB (asciiBytes s) := by
-  intro b hb
-  simp only [asciiBytes, List.mem_map] at hb
-  obtain ⟨c, hc, rfl⟩ := hb
-  rw [byteOf_toNat _ (by have := hs c hc; omega)]
-  exact hs c hc
-
-theorem chars_append (a b : Bytes) : chars (a ++ b) = chars a ++ chars b := by simp [chars]
+theorem chars_append (a b : Bytes) : chars (a ++ b) = chars a ++ chars b := by simp [chars, decodeAsciiReplace]
 
 theorem splitLine_cons (b : UInt8) (bs : Bytes) :
     splitLine (b :: bs) = if b = 10 then [b] else b :: splitLine bs := rfl
@@ -253,51 +64,15 @@ theorem firstLines_cons (n : Nat) (b : UInt8) (bs : Bytes) :
   · simp [firstLines, splitLine, hb]
   · simp [firstLines, splitLine, hb]
 
-theorem byteChar_lf (b : UInt8) : byteChar b = '\n' ↔ b = 10 := by
-  constructor
-  · intro h
-    have := congrArg Char.toNat h
-    have hb : b.toNat < 256 := b.toNat_lt
-    have e : (byteChar b).toNat = b.toNat := by
-      have hv : b.toNat.isValidChar := Or.inl (by omega)
-      unfold byteChar Char.ofNat
-      rw [dif_pos hv]
-      rfl
-    rw [e] at this
-    exact UInt8.toNat_inj.1 (by simpa using this)
-  · intro h; subst h; rfl
-
-/-- `rawheader` is the first nine lines with a line feed inserted after the first -/
-theorem raw_eq_ins (n : Nat) (X : Bytes) :
-    chars (splitLine X) ++ '\n' :: chars (firstLines n (X.drop (splitLine X).length)) =
-      ins (chars (firstLines (n + 1) X)) := by
-  induction X with
-  | nil => simp [splitLine, firstLines_nil, chars, ins]
-  | cons b bs ih =>
-    rw [firstLines_cons, splitLine_cons]
-    by_cases hb : b = 10
-    · subst hb
-      simp [chars, ins]
-      rfl
-    · have : byteChar b ≠ '\n' := fun h => hb ((byteChar_lf b).1 h)
-      simp only [if_neg hb, chars, List.map_cons, List.length_cons, List.drop_succ_cons, List.cons_append, ins,
-        if_neg this] at ih ⊢
-      rw [ih]
-
-theorem moreLines_eq (file : Bytes) (n pos : Nat) (h : asciiB (firstLines n (file.drop pos))) :
-    moreLines file n pos = .ok (chars (firstLines n (file.drop pos))) := by
+/-- `rawheader` is the first nine lines, decoded leniently -/
+theorem moreLines_eq (file : Bytes) (n pos : Nat) :
+    moreLines file n pos = chars (firstLines n (file.drop pos)) := by
   induction n generalizing pos with
   | zero => rfl
   | succ n ih =>
-    simp only [firstLines] at h ⊢
-    have h1 : asciiB (splitLine (file.drop pos)) := fun b hb => h b (by simp [hb])
-    have h2 : asciiB (firstLines n (file.drop (pos + (splitLine (file.drop pos)).length))) := by
-      intro b hb
-      apply h b
-      rw [List.drop_drop] at *
-      simp [hb]
-    simp only [moreLines, readline, decodeAscii_of_ascii _ h1, ih _ h2, bind, Except.bind, pure, Except.pure]
-    rw [List.drop_drop, chars_append]
+    simp only [firstLines, moreLines, readline, chars_append]
+    rw [ih, List.drop_drop]
+    rfl
 
 /-- number of line feeds -/
 def lfCount (bs : Bytes) : Nat := bs.count 10
@@ -435,7 +210,7 @@ theorem findHeader_leading (file : Bytes) (leading : List Str) (hl : ∀ l ∈ l
         · exact hs c hc
         · subst hc; decide)
       rw [findHeader]
-      simp only [readline, hline, decodeAscii_asciiBytes _ hasc, bind, Except.bind, hstrip, List.isEmpty_nil, if_true]
+      simp only [readline, hline, show decodeAsciiReplace (asciiBytes (l ++ ['\n'])) = l ++ ['\n'] from chars_asciiBytes _ hasc, hstrip, List.isEmpty_nil, if_true]
       have e2 : file.drop (pos + (asciiBytes (l ++ ['\n'])).length) = asciiBytes (leadingText ls) ++ X := by
         rw [← List.drop_drop, e1, asciiBytes_length]
         have : (l ++ ['\n']).length = (asciiBytes l).length + 1 := by simp [asciiBytes_length]
